@@ -46,7 +46,16 @@ ROUTE_MODELLED = ("client.go Update/director/wait/schedule/detect/check/checkPen
                   "the detector's timer, DialTimeout timers and float64 EWMA arithmetic are the runtime's: measured, not modelled")
 TB_ROUTE = TB_COMMON + ["the verif-tagged accessors in /repo/verif_hooks.go (routing snapshot, latency override, detector period constant)", "real timers in the scenarios that wait for the detector (monitor-only)"]
 
-PROPS = {    "C07": {
+STREAM_RULE = ("scripted scenarios against a real *rpc.Conn and a real Server.ServeCodec joined by a scripted link (every frame either side writes is queued and delivered to the other reader only when the script says so; "
+               "bursts; a cut keeps a prefix of what is in flight; each reader is told about the end separately): 1..4 streams per connection, handlers that push 1..3 messages the moment they start (under a slow acknowledgement), "
+               "writes and reads on both sides incl. parked readers, client Close with messages in flight, unary calls interleaved; client direct I/O x server direct I/O x pipelining flags x four header encoders; "
+               "after every action the observable state of both ends (what each application read, errors, parked readers, Close returned, frames in flight) is compared with the Lean automaton T; distinct = (configuration, sequence of action kinds)")
+STREAM_MODELLED = ("stream.go, conn.go (NewStream, closeStream, stream branches of send/read, recv teardown), server.go (stream branches of ServeRequest/callService, ServeCodec teardown) are modelled as the automaton T (Model/Stream.lean): both ends and the two FIFO wires; "
+                   "eight facts about ordering and teardown are read from the source on every run (Generated/StreamFacts.lean); the hand-over from trigger to a parked reader is one step in T (a Close racing it is kept out of bursts); poll mode shares ServeRequest and its EOF teardown is a fact read from listen(); "
+                   "Server.Close in poll mode with the connection open is outside T (known finding D17)")
+
+PROPS = {
+    "C07": {
         "components": [{"name": "wire", "driver": "wire", "streams": ["c07"]}],
         "rule": "structure-aware header values (seq at every 7-bit boundary and 2^63/2^64-1; field lengths around 0,1,127/128,16383/16384,65535/65536,2097151/2097152; "
                 "scratch buffers of capacity 0,1,size-1,size,size+1,64K with dirty contents) through the real encoders/decoders and the Lean model; "
@@ -93,6 +102,12 @@ PROPS = {    "C07": {
             "rule": E2E_RULE + " | " + SRV_RULE + " | framing differential over buffer sizes and fragmentations",
             "trusted_base": TB_COMMON + ["real sockets, TLS, netpoll, the OS in the end-to-end runs"], "modelled": SRV_MODELLED + " | " + E2E_MODELLED + " | Options resolution chains are read from dialer.go/server.go on every run (Generated/OptFacts.lean); the registries themselves, TLS and the socket packages are not modelled",
             "assumptions": ["the cross product of networks x codecs x modes x buffer sizes is sampled end to end (PRNG over the matrix), not enumerated; the theorems cover server modes, header encoders, buffer sizes and fragmentation for all inputs", "ws is exercised one call at a time only (as the property states)", "NoCopy only with handlers and codecs that do not keep or alias argument bytes"]},
+    "C09": {"components": [{"name": "stream", "driver": "stream", "streams": ["t"]}, {"name": "e2e", "driver": "e2e", "streams": ["e"]}],
+            "rule": STREAM_RULE + " | " + E2E_RULE, "trusted_base": TB_COMMON, "modelled": STREAM_MODELLED,
+            "assumptions": ["messages in flight when the client closes the stream or the connection is cut may be dropped (the property speaks of an open stream)", "one reader at a time per stream end in the scripted scenarios", "corruption of payload bytes is covered by the wire and framing theorems (C07, C01) and by end-to-end payload checks, not by T (payloads are abstract values)"]},
+    "C10": {"components": [{"name": "stream", "driver": "stream", "streams": ["t"]}, {"name": "e2e", "driver": "e2e", "streams": ["e"]}],
+            "rule": STREAM_RULE + " | " + E2E_RULE + "; after teardown in either order: handler exit log, goroutine profile", "trusted_base": TB_COMMON, "modelled": STREAM_MODELLED,
+            "assumptions": ["'promptly' is a quiescence statement (no reader parked on a stopped stream in any reachable state) plus 2-3 s deadlines in the harness", "poll mode: per-connection teardown is the same code path by a fact read from listen(); Server.Close in poll mode with the connection still open never reaches it (known finding D17)"]},
     "C04": {"components": [{"name": "server", "driver": "server", "streams": ["s"]}, {"name": "e2e", "driver": "e2e", "streams": ["e"]}],
             "rule": SRV_RULE + " | " + E2E_RULE, "trusted_base": TB_COMMON, "modelled": SRV_MODELLED + " | " + E2E_MODELLED,
             "assumptions": ["the peer uses each sequence number once per connection (guaranteed by the client half: K's pending-table invariant)", "Transport/Client never retry: checked by the end-to-end execution counts, not a theorem"]},
@@ -153,6 +168,14 @@ MANIFEST_TEXT = {
         "text": "Lean 4 theorems: over the server-connection automaton S every response written is the answer prescribed by a configuration-free function of the request and its handler's verdict, two runs in different modes (direct I/O x pipelining) and schedules write the same response for the same request, and at the end of a connection the responses are exactly the prescribed answers; client and server resolve socket, body codec and header encoder from Options by the same chain (read from dialer.go/server.go on every run) in which a registered name wins over a constructor; header encoders emit the same bytes whatever the size or contents of the reused buffer; framing delivers the same messages for every fragmentation. End-to-end runs draw configurations from the full matrix (network incl. TLS, header encoder, body codec, server and client modes, buffer sizes 512..1M, options by name or constructor) and compare every transcript with the abstract spec computed by the Lean driver.",
         "note": KERNEL_NOTE + "The matrix is sampled, not enumerated; real networks, TLS and body codecs are outside the model; poll mode is exercised end to end and by the poll component only.",
         "technique": "Lean 4 proof (mode-independent answers, option-resolution equality, buffer/fragmentation independence) + translated option chains + state correspondence + end-to-end matrix against the Lean spec"},
+    "C09": {
+        "text": "Lean 4 theorems over the stream automaton T (both ends of one connection and the two FIFO wires; every interleaving of application threads, readers, decode and stream workers, handlers; any number of streams; unary traffic on the same wires; any cut that keeps a prefix of what is in flight): what an application has read or has queued on a stream is a prefix of what the other side wrote on that same stream (no duplication, reordering, foreign message or cross-delivery), and while the receiving end is open and the connection up everything written is read, queued or in flight in order (no loss) - including messages the handler pushes before the client has seen the open acknowledgement. The ordering facts the proof needs (acknowledgement written before the handler starts; the reader switches the call to the streaming phase) are read from server.go/conn.go on every run. T is compared state-by-state with a real Conn and a real ServeCodec joined by a scripted link after every action; end-to-end runs check stream transcripts incl. server-first pushes in every configuration.",
+        "note": KERNEL_NOTE + "Payloads are abstract values in T (byte-level integrity is C07/C01 and the end-to-end payload checks). Messages in flight at Close/cut may be dropped.",
+        "technique": "Lean 4 proof (path invariant over both ends and the wires, by induction over all traces) + source-derived ordering facts + state correspondence over a scripted link + end-to-end stream transcripts"},
+    "C10": {
+        "text": "Lean 4 theorems over T: in every reachable state nobody is parked on a stopped stream; once the client reader has torn down every stream handed to the application is stopped, and once the server connection has torn down every stream of it is stopped; stopping wakes the parked reader with ErrStreamShutdown; a later read or write on a stopped stream fails at once and sends nothing; closing one stream changes no other stream, no unary call and nothing already on its way. The teardown facts (client recv, ServeCodec, the poll-mode EOF branch, Close stops before the handshake, stop sets the flag and broadcasts) are read from the source on every run. Correspondence over the scripted link with parked readers on both sides, Close with messages in flight, cuts at every point; end-to-end: handler exit log and goroutine baselines in poll and non-poll mode.",
+        "note": KERNEL_NOTE + "'Promptly' is measured (2-3 s deadlines). Known finding D17: in poll mode Server.Close with a connection still open never runs the per-connection teardown, so its stream handlers stay blocked until the peer closes.",
+        "technique": "Lean 4 proof (no-stranded-reader invariant, teardown theorems, frame lemmas) + source-derived teardown facts + state correspondence over a scripted link + end-to-end handler-exit monitors"},
     "C04": {
         "text": "Lean 4 theorems over the server-connection automaton S (every interleaving of reader, decode worker, execution workers, handlers, teardown; every request mix incl. all 256 upgrade bytes and junk; every disconnect point): no request is executed or answered twice, no handler or response is phantom, and at the end of the connection every request read was executed exactly once if it had to be and answered exactly once. S is compared state-by-state with the real ServeCodec under scripted schedules; end-to-end runs count executions per call across all configurations and through Transport and Client.",
         "note": KERNEL_NOTE + "Unique sequence numbers per connection are assumed of the peer (the client half proves it of the library's own client). 'Never retries' for Transport/Client is measured end to end.",
